@@ -1,2 +1,265 @@
+//! C02 — BBS signature binding (form A, deviation bound 1; thorough: bound 2 over structural edits).
 use crate::common::*;
-pub fn run(_env: &Env) {}
+use crate::edits::*;
+use mccore::{par_for, O};
+use refbbs::{Iface, Suite};
+use serde_json::json;
+
+#[derive(Clone, PartialEq, Eq)]
+pub struct St {
+    pub suite: Suite,
+    pub iface: Iface,
+    pub pk: Vec<u8>,
+    pub sig: Vec<u8>,
+    pub header: Vec<u8>,
+    pub msgs: Vec<Vec<u8>>,
+    // call form (not part of the statement): pass None instead of an empty value
+    pub hdr_none: bool,
+    pub msgs_none: bool,
+}
+impl St {
+    fn statement_eq(&self, o: &St) -> bool {
+        self.suite == o.suite && self.iface == o.iface && self.pk == o.pk && self.sig == o.sig && self.header == o.header && self.msgs == o.msgs
+    }
+    fn key(&self) -> Vec<u8> {
+        let mut k = vec![self.suite as u8, self.iface as u8, self.hdr_none as u8, self.msgs_none as u8];
+        k.extend_from_slice(&self.pk);
+        k.extend_from_slice(&self.sig);
+        k.extend_from_slice(&(self.header.len() as u64).to_be_bytes());
+        k.extend_from_slice(&msgs_digest(&[self.header.clone()]));
+        k.extend_from_slice(&msgs_digest(&self.msgs));
+        k
+    }
+    pub fn verify_impl(&self) -> O<()> {
+        let h: Option<&[u8]> = if self.hdr_none && self.header.is_empty() { None } else { Some(&self.header) };
+        let m: Option<&[Vec<u8>]> = if self.msgs_none && self.msgs.is_empty() { None } else { Some(&self.msgs) };
+        match self.iface {
+            Iface::Plain => z(self.suite).verify(&self.pk, &self.sig, h, m),
+            Iface::Blind => z(self.suite).verify_blind_sign(&self.pk, &self.sig, h, m, None, None),
+        }
+    }
+    pub fn verify_ref(&self) -> Result<(), String> {
+        match self.iface {
+            Iface::Plain => refbbs::verify(self.suite, &self.pk, &self.sig, &self.header, &self.msgs),
+            Iface::Blind => refbbs::verify_blind_sign(self.suite, &self.pk, &self.sig, &self.header, &self.msgs, &[], &bls12_381_plus::Scalar::ZERO),
+        }
+    }
+}
+
+pub fn message_list_edits<S: Clone + 'static>(
+    msgs: &[Vec<u8>],
+    letters: &[Vec<u8>],
+    tag: &str,
+    get: fn(&S) -> &Vec<Vec<u8>>,
+    set: fn(&S, Vec<Vec<u8>>) -> S,
+) -> Vec<Ed<S>> {
+    let mut v: Vec<Ed<S>> = Vec::new();
+    let l = msgs.len();
+    for i in 0..l {
+        for bit in flip_positions(msgs[i].len(), 4) {
+            v.push(ed(format!("{tag}[{i}] flip bit {bit}"), &format!("{tag}-bitflip"), false, move |s: &S| {
+                let mut m = get(s).clone();
+                if i >= m.len() || bit / 8 >= m[i].len() { return None; }
+                m[i] = flip(&m[i], bit);
+                Some(set(s, m))
+            }));
+        }
+        for (li, lt) in letters.iter().enumerate() {
+            let lt = lt.clone();
+            v.push(ed(format!("{tag}[{i}] := letter{li}"), &format!("{tag}-replace"), true, move |s: &S| {
+                let mut m = get(s).clone();
+                if i >= m.len() || m[i] == lt { return None; }
+                m[i] = lt.clone();
+                Some(set(s, m))
+            }));
+        }
+        v.push(ed(format!("{tag} delete [{i}]"), &format!("{tag}-delete"), true, move |s: &S| {
+            let mut m = get(s).clone();
+            if i >= m.len() { return None; }
+            m.remove(i);
+            Some(set(s, m))
+        }));
+        v.push(ed(format!("{tag} duplicate [{i}]"), &format!("{tag}-duplicate"), true, move |s: &S| {
+            let mut m = get(s).clone();
+            if i >= m.len() { return None; }
+            let x = m[i].clone();
+            m.insert(i, x);
+            Some(set(s, m))
+        }));
+        v.push(ed(format!("{tag}[{i}] drop last byte"), &format!("{tag}-byte-truncate"), false, move |s: &S| {
+            let mut m = get(s).clone();
+            if i >= m.len() || m[i].is_empty() { return None; }
+            m[i].pop();
+            Some(set(s, m))
+        }));
+        v.push(ed(format!("{tag}[{i}] append 00"), &format!("{tag}-byte-extend"), false, move |s: &S| {
+            let mut m = get(s).clone();
+            if i >= m.len() { return None; }
+            m[i].push(0);
+            Some(set(s, m))
+        }));
+        for j in (i + 1)..l {
+            v.push(ed(format!("{tag} swap [{i}]<->[{j}]"), &format!("{tag}-swap"), true, move |s: &S| {
+                let mut m = get(s).clone();
+                if j >= m.len() || m[i] == m[j] { return None; }
+                m.swap(i, j);
+                Some(set(s, m))
+            }));
+        }
+    }
+    for pos in 0..=l {
+        for (li, lt) in letters.iter().enumerate() {
+            let lt = lt.clone();
+            v.push(ed(format!("{tag} insert letter{li} at {pos}"), &format!("{tag}-insert"), true, move |s: &S| {
+                let mut m = get(s).clone();
+                if pos > m.len() { return None; }
+                m.insert(pos, lt.clone());
+                Some(set(s, m))
+            }));
+        }
+    }
+    for k in 0..l {
+        v.push(ed(format!("{tag} prefix of length {k}"), &format!("{tag}-prefix"), false, move |s: &S| {
+            let m = get(s).clone();
+            if k >= m.len() { return None; }
+            Some(set(s, m[..k].to_vec()))
+        }));
+    }
+    v
+}
+
+pub fn header_edits<S: Clone + 'static>(seed: u64, tag: &str, get: fn(&S) -> &Vec<u8>, set: fn(&S, Vec<u8>) -> S) -> Vec<Ed<S>> {
+    let mut v: Vec<Ed<S>> = Vec::new();
+    for (hn, h) in hdr_alphabet(seed) {
+        let hv = h.clone().unwrap_or_default();
+        v.push(ed(format!("{tag} := {hn}"), &format!("{tag}-replace"), hn == "none" || hn == "16B" || hn == "1B", move |s: &S| {
+            if *get(s) == hv { return None; }
+            Some(set(s, hv.clone()))
+        }));
+    }
+    v.push(ed(format!("{tag} flip first bit"), &format!("{tag}-bitflip"), false, move |s: &S| {
+        let h = get(s);
+        if h.is_empty() { return None; }
+        Some(set(s, flip(h, 0)))
+    }));
+    v.push(ed(format!("{tag} flip last bit"), &format!("{tag}-bitflip"), false, move |s: &S| {
+        let h = get(s);
+        if h.is_empty() { return None; }
+        Some(set(s, flip(h, h.len() * 8 - 1)))
+    }));
+    v.push(ed(format!("{tag} append 00"), &format!("{tag}-extend"), true, move |s: &S| {
+        let mut h = get(s).clone();
+        h.push(0);
+        Some(set(s, h))
+    }));
+    v.push(ed(format!("{tag} drop last byte"), &format!("{tag}-truncate"), false, move |s: &S| {
+        let mut h = get(s).clone();
+        h.pop()?;
+        Some(set(s, h))
+    }));
+    v
+}
+
+fn edits_for(env: &Env, base: &St) -> Vec<Ed<St>> {
+    let seed = env.ctx.seed;
+    let letters: Vec<Vec<u8>> = vec![vec![], vec![0x01], mccore::fill(seed, "c02-letter", 32)];
+    let mut v = message_list_edits::<St>(&base.msgs, &letters, "msg", |s| &s.msgs, |s, m| St { msgs: m, ..s.clone() });
+    v.extend(header_edits::<St>(seed, "header", |s| &s.header, |s, h| St { header: h, ..s.clone() }));
+    // public keys: every other key of both suites
+    for s2 in suites() {
+        for k in keys(s2) {
+            let pk = k.pk.clone();
+            v.push(ed(format!("pk := {}/{}", s2.name(), k.id), "pk-replace", k.id != "k2", move |s: &St| {
+                if s.pk == pk { return None; }
+                Some(St { pk: pk.clone(), ..s.clone() })
+            }));
+        }
+    }
+    // all 640 single-bit flips of the signature
+    for bit in 0..640 {
+        let cls = if bit < 384 { "sigflip-A" } else { "sigflip-e" };
+        v.push(ed(format!("sig flip bit {bit}"), cls, false, move |s: &St| Some(St { sig: flip(&s.sig, bit), ..s.clone() })));
+    }
+    v.push(ed("verify under the other ciphersuite".into(), "cross-suite", true, |s: &St| Some(St { suite: s.suite.other(), ..s.clone() })));
+    v.push(ed("verify through the other interface".into(), "cross-interface", true, |s: &St| {
+        Some(St { iface: if s.iface == Iface::Plain { Iface::Blind } else { Iface::Plain }, ..s.clone() })
+    }));
+    v.push(ed("call form: header None<->Some(empty)".into(), "callform-header", true, |s: &St| {
+        if !s.header.is_empty() { return None; }
+        Some(St { hdr_none: !s.hdr_none, ..s.clone() })
+    }));
+    v.push(ed("call form: messages None<->Some(empty)".into(), "callform-messages", true, |s: &St| {
+        if !s.msgs.is_empty() { return None; }
+        Some(St { msgs_none: !s.msgs_none, ..s.clone() })
+    }));
+    v
+}
+
+pub fn run(env: &Env) {
+    let seed = env.ctx.seed;
+    let bound = if env.thorough() { 2 } else { 1 };
+    // bases
+    let l = msg_letters(seed);
+    let mut lists: Vec<(String, Vec<Vec<u8>>)> = vec![
+        ("L0".into(), vec![]),
+        ("L1".into(), vec![l[2].clone()]),
+        ("L1-empty".into(), vec![vec![]]),
+        ("L2".into(), vec![l[1].clone(), l[3].clone()]),
+        ("L3".into(), vec![l[3].clone(), vec![], l[2].clone()]),
+        ("L4".into(), distinct_msgs(seed, "c02", 4)),
+    ];
+    if env.thorough() {
+        lists.push(("L3-long".into(), vec![l[4].clone(), l[5].clone(), l[6].clone()]));
+        lists.push(("L5".into(), distinct_msgs(seed, "c02b", 5)));
+        lists.push(("L8".into(), distinct_msgs(seed, "c02c", 8)));
+    }
+    let hdrs: Vec<(String, Option<Vec<u8>>)> = if env.thorough() { hdr_alphabet(seed).into_iter().filter(|h| h.0 != "65536B").collect() } else { hdr_alphabet(seed).into_iter().filter(|h| h.0 == "none" || h.0 == "16B").collect() };
+    struct Root { id: String, base: St, kid: &'static str, sk: Vec<u8>, hname: String, lname: String }
+    let mut roots = Vec::new();
+    for s in suites() {
+        for k in keys(s) {
+            if k.id == "k2" && !env.thorough() { continue; }
+            for (hn, h) in &hdrs {
+                for (ln, m) in &lists {
+                    for iface in [Iface::Plain, Iface::Blind] {
+                        if iface == Iface::Blind && !(k.id == "k0" && (ln == "L0" || ln == "L2")) { continue; }
+                        let id = format!("{}/{:?}/{}/{}/{}", s.name(), iface, k.id, hn, ln);
+                        roots.push(Root { id, base: St { suite: s, iface, pk: k.pk.clone(), sig: vec![], header: h.clone().unwrap_or_default(), msgs: m.clone(), hdr_none: h.is_none(), msgs_none: false }, kid: k.id, sk: k.sk.clone(), hname: hn.clone(), lname: ln.clone() });
+                    }
+                }
+            }
+        }
+    }
+    env.ctx.set_rule("roots = honest signatures (plain sign, and blind_sign without commitment) over suites x keys x headers x message lists; from each root ALL single edits of the alphabet: per message bit flips / replace by each letter / delete / duplicate / byte truncate / byte extend / swap distinct / insert each letter at each position / every proper prefix; header := every other alphabet element, bit flips, extend, truncate; pk := every other key of both suites; all 640 signature bit flips; other suite; other interface; None<->empty call forms. Thorough: all ordered pairs of structural edits (bound 2). A state is the edited (suite, iface, pk, sig, header, messages, call form); it is non-trivial when the real verifier ran on it and its verdict was compared with the semantic and the reference verdict.");
+    env.ctx.extra("deviation_bound_completed", json!(bound));
+    par_for(&roots, |_, r| {
+        if !env.want(&r.id) || env.ctx.out_of_time() { return; }
+        let zk = z(r.base.suite);
+        let h: Option<&[u8]> = if r.base.hdr_none { None } else { Some(&r.base.header) };
+        let sig = match r.base.iface {
+            Iface::Plain => zk.sign(&r.sk, &r.base.pk, h, Some(&r.base.msgs)),
+            Iface::Blind => zk.blind_sign(&r.sk, &r.base.pk, None, h, Some(&r.base.msgs)),
+        };
+        env.ctx.step();
+        let det0 = json!({"suite": r.base.suite.name(), "iface": format!("{:?}", r.base.iface), "key": r.kid, "header": r.hname, "list": r.lname, "messages": hexv(&r.base.msgs)});
+        let sig = match sig { O::Ok(s) => s, other => { env.ctx.violation("C02:base-sign-failed", &format!("honest signing failed: {}", other.describe()), env.case(&r.id, det0)); return; } };
+        let base = St { sig, ..r.base.clone() };
+        let edits = edits_for(env, &base);
+        let (_st, tr) = explore(&base, &edits, bound, &|s| s.key(), &mut |v| {
+            let sem = v.state.statement_eq(&base);
+            env.ctx.state(&[r.id.as_bytes(), &v.state.key()]);
+            let got = v.state.verify_impl();
+            let cls = if v.classes.is_empty() { "honest".to_string() } else { v.classes.join("+") };
+            let det = json!({"base": det0, "edits": v.path, "signature": hex::encode(&v.state.sig), "semantic_accept": sem});
+            expect(env, &r.id, &format!("verify after [{}]", v.path.join("; ")), &got, sem, &format!("binding:{}", cls), det);
+            let rf = v.state.verify_ref();
+            if rf.is_ok() != sem {
+                env.machinery(&format!("C02 reference verdict {:?} != semantic {} at {} [{}]", rf, sem, r.id, v.path.join("; ")));
+            }
+            env.ctx.class(&format!("{}:{}", if sem { "accept" } else { "reject" }, v.classes.first().copied().unwrap_or("honest")));
+            env.ctx.trace();
+            if v.path.len() == 1 && v.path[0].starts_with("msg insert") { env.ctx.sample(json!({"root": r.id, "edits": v.path, "verdict": got.kind()})); }
+        });
+        env.ctx.add_extra("edit_transitions", tr);
+    });
+}
